@@ -1,2 +1,81 @@
-(** C13 - The IPs a plugin configures are exactly the IPs IPAM allocated. (theorems follow) *)
-From Galaxy.Model Require Import IpInfoCodec.
+(** C13 - The IPs a plugin configures are exactly the IPs IPAM allocated.
+    Property theorems only; proofs are in Proofs/IpInfoCodecP.v (dotted-quad / CIDR round trips come
+    from Proofs/NetsP.v). *)
+From Coq Require Import List Ascii String NArith ZArith Permutation.
+From Galaxy.Base Require Import Strs.
+From Galaxy.Model Require Import Nets IpInfoCodec.
+From Galaxy.Proofs Require Import IpInfoCodecP.
+Import ListNotations.
+Open Scope N_scope.
+
+(** [ipinfo_ok i]: address < 2^32, prefix length <= 32, VLAN < 2^16, gateway (if any) < 2^32 - the
+    ranges of the Go types.  [rr_ok rr]: the re-encoded request_ip_range member, if present, is any
+    JSON value of the scanner's domain (escape-free ASCII strings, numbers < 2^16).
+
+    End to end: for every non-empty list of allocated IPs, whatever request_ip_range accompanies it,
+    WHATEVER arguments the kubelet sent (even ones naming an ipinfos key themselves), for every
+    network position (number of networks = length of [orders], the one being configured is the
+    last) and every iteration order of galaxy's argument maps: the daemon extracts exactly the
+    encoder's text from the annotation Bind wrote, and the plugins' decoder applied to the
+    accumulated CNI_ARGS returns exactly the allocated addresses, prefix lengths, gateways and
+    VLAN ids, in order. *)
+Theorem ipinfos_end_to_end : forall l rr kubelet orders,
+  Forall ipinfo_ok l -> l <> [] -> rr_ok rr -> orders <> [] ->
+  exists ext, ext_args (annotation rr l) = Some ext /\
+    (Forall (fun o => Permutation ext o) orders ->
+     allocate (accumulate kubelet (map build_args orders)) =
+     DOk (map ii_vlan l) (map (fun i => (ii_addr i, ii_len i, ii_gw i)) l)).
+Proof. exact ipinfos_end_to_end_l. Qed.
+Print Assumptions ipinfos_end_to_end.
+
+(** no IP allocated: after any number of networks nothing is configured from IPAM - the decoder
+    reports "no ipinfos" - provided the kubelet's own arguments carry no ipinfos key *)
+Theorem no_ipinfos_nothing_configured : forall rr kubelet n,
+  rr_ok rr -> get_arg (L "ipinfos") kubelet = None ->
+  exists ext, ext_args (annotation rr []) = Some ext /\
+    allocate (accumulate kubelet (repeat (build_args ext) n)) = DNone.
+Proof. exact no_ipinfos_l. Qed.
+Print Assumptions no_ipinfos_nothing_configured.
+
+(** the daemon's raw-member scanner returns exactly the encoder's text for the annotation Bind writes *)
+Theorem annotation_scanned : forall rr l, rr_ok rr -> Forall ipinfo_ok l ->
+  ext_args (annotation rr l) = Some (match l with [] => [] | _ => [(L "ipinfos", enc_ipinfos l)] end).
+Proof. exact annotation_scanned_l. Qed.
+Print Assumptions annotation_scanned.
+
+(** lemmas that make the k=v;... layer lossless: the encoder emits no ';', no white space at either
+    end, and the key contains neither '=' nor ';' nor outer white space *)
+Theorem enc_no_semicolon : forall l, Forall ipinfo_ok l -> ~ In ";"%char (enc_ipinfos l).
+Proof. exact enc_no_semicolon_l. Qed.
+Print Assumptions enc_no_semicolon.
+
+Theorem enc_no_outer_space : forall l, trim_space (enc_ipinfos l) = enc_ipinfos l /\ enc_ipinfos l <> [].
+Proof. exact enc_no_outer_space_l. Qed.
+Print Assumptions enc_no_outer_space.
+
+Theorem ipinfos_key_no_equals :
+  ~ In "="%char (L "ipinfos") /\ ~ In ";"%char (L "ipinfos") /\ trim_space (L "ipinfos") = L "ipinfos".
+Proof. exact ipinfos_key_no_equals_l. Qed.
+Print Assumptions ipinfos_key_no_equals.
+
+(** the JSON scanner reads back every printed value of its domain (and, inside objects, hands out
+    the raw text of each member: top_members_print) *)
+Theorem json_print_parse : forall v, jv_ok v ->
+  parse_json (print_json v) = Some v /\
+  (forall m, v = VObj m -> top_members (print_json v) = Some (map (fun kv => (fst kv, snd kv, print_json (snd kv))) m)).
+Proof.
+  intros v H. split; [apply parse_json_print, H|]. intros m ->. exact (top_members_print m H).
+Qed.
+Print Assumptions json_print_parse.
+
+(** the decoder inverts the encoder *)
+Theorem decode_encode : forall l, Forall ipinfo_ok l -> l <> [] ->
+  dec_ipinfos (enc_ipinfos l) = DOk (map ii_vlan l) (map (fun i => (ii_addr i, ii_len i, ii_gw i)) l).
+Proof. exact decode_encoded. Qed.
+Print Assumptions decode_encode.
+
+(** the hypotheses are met by a concrete non-trivial list (two IPs, boundary values, one without gateway) *)
+Example hypotheses_nonvacuous : Forall ipinfo_ok example_infos /\ example_infos <> [] /\
+  annotation None example_infos =
+  L "{""common"":{""ipinfos"":[{""ip"":""10.0.0.5/24"",""vlan"":2,""gateway"":""10.0.0.1""},{""ip"":""255.255.255.255/32"",""vlan"":65535,""gateway"":""""}]}}".
+Proof. exact example_infos_ok. Qed.
